@@ -291,7 +291,7 @@ func c12ExecStale(sc c12Stale) string {
 				if n > are {
 					break
 				}
-				if time.Now().After(dl) {
+				if deadlinePassed(dl) {
 					return fmt.Sprintf("round %d: no reopen", r)
 				}
 				runtime.Gosched()
@@ -306,7 +306,7 @@ func c12ExecStale(sc c12Stale) string {
 		}
 		dl := time.Now().Add(3 * time.Second)
 		for !stopChClosed(s.stopCh) {
-			if time.Now().After(dl) {
+			if deadlinePassed(dl) {
 				return fmt.Sprintf("round %d: every assigned vBucket stream ended for good after %d rebalance(s) confirmed by stream ends, but the client did not stop", r, 1+r%3)
 			}
 			time.Sleep(100 * time.Microsecond)
